@@ -191,6 +191,8 @@ REPEAT_GROWTH = (1.3, 150)  # the same call later in the process: steps <= 1.3 *
 
 
 AUTO_SEPARATORS = (b'\r\n', b'; ', b';', b', ', b',', b' ')
+# separators of short single-value formats (language tags, dotted names): only for seeds of at most 40 octets
+SHORT_SEPARATORS = (b'-', b'.')
 # items no sample contains but a peer may send between separators: folded continuation lines, empty and blank items
 SYNTHETIC_ITEMS = {
     b'\r\n': (b' x', b'\tx', b' ', b' a=b', b' "q"'),
@@ -199,6 +201,8 @@ SYNTHETIC_ITEMS = {
     b', ': (b'', b' ', b'"q"'),
     b',': (b'', b' ', b'"q"'),
     b' ': (b'', b'"q"', b'a=b'),
+    b'-': (b'abcd', b'1abc', b'x'),
+    b'.': (b'abcd', b'xn--a'),
 }
 _AUTO_SHAPES = None
 _SWEEP_SEEDS = None
@@ -221,7 +225,9 @@ def auto_shapes():
             for raw in corpus.accepted(path)[:6]:
                 if not wirefault.is_text(raw) or len(raw) < 2 or len(raw) > 400:
                     continue
-                for sep in AUTO_SEPARATORS:
+                simple = len(raw) <= 40 and all(0x30 <= b <= 0x39 or 0x41 <= b <= 0x5a or 0x61 <= b <= 0x7a or b in b'.-'
+                                                for b in raw)
+                for sep in AUTO_SEPARATORS + (SHORT_SEPARATORS if simple else ()):
                     parts = raw.split(sep)
                     for part in parts:
                         if part and len(part) <= 80:
@@ -244,6 +250,8 @@ def auto_shapes():
                 continue            # one host per (class, separator): the first (usually richest) seed
             seen_hosts.add((path, sep))
             items = vocab.get((module, sep), [])[:60]
+            if sep in SHORT_SEPARATORS:
+                items = list(SYNTHETIC_ITEMS.get(sep, ())) + items[:6]
             # the same items left unterminated (closing brace / quote / bracket removed)
             unterminated = []
             for item in items:
@@ -378,6 +386,23 @@ def build_lp(raw, at, size, count, item_kind):
     return bytes(out)
 
 
+_WHOLE_SHAPES = None
+
+
+def whole_shapes():
+    """Small accepted units (committed seeds and derived variants - emptied fields give the smallest records a peer
+    can send) to be repeated back to back: [(class path, unit hex), ...]"""
+    global _WHOLE_SHAPES  # pylint: disable=global-statement
+    if _WHOLE_SHAPES is None:
+        shapes = []
+        for path in corpus.class_paths():
+            units = sorted({raw for raw in corpus.accepted_plus(path) if 1 <= len(raw) <= 48}, key=lambda raw: (len(raw), raw))
+            for raw in units[:3]:
+                shapes.append((path, raw.hex()))
+        _WHOLE_SHAPES = shapes
+    return _WHOLE_SHAPES
+
+
 _NEST_SHAPES = None
 NEST_INNER = ('valid', 'badname', 'trunc')
 
@@ -476,6 +501,7 @@ def prepare(tier):  # pylint: disable=unused-argument
     auto_shapes()
     nest_shapes()
     lp_shapes()
+    whole_shapes()
     sweep_seeds()
     return {'phase': 'fuzz'}
 
@@ -510,6 +536,9 @@ def _generate(rng, index, tier, extra):
         path, raw_hex, at, size = shapes[(index // len(LP_ITEMS)) % len(shapes)]
         return {'kind': 'lpscale', 'cls': path, 'hex': raw_hex, 'at': at, 'size': size,
                 'item': LP_ITEMS[index % len(LP_ITEMS)], 'quick': tier == 'quick'}
+    if phase == 'whole':
+        path, raw_hex = whole_shapes()[index % len(whole_shapes())]
+        return {'kind': 'wholescale', 'cls': path, 'hex': raw_hex, 'quick': tier == 'quick'}
     if phase == 'nest':
         shapes = nest_shapes()
         path, raw_hex, at, size = shapes[(index // len(NEST_INNER)) % len(shapes)]
@@ -573,6 +602,8 @@ def execute(doc):
         _exec_nestscale(doc, res)
     elif kind == 'lpscale':
         _exec_lpscale(doc, res)
+    elif kind == 'wholescale':
+        _exec_wholescale(doc, res)
     else:
         raise core.HarnessError('unknown schedule kind %r' % kind)
     return res
@@ -745,6 +776,29 @@ def _exec_autoscale(doc, res):
     res.stats['runs.autoscale'] += 1
     res.stats['scale.accepted_inputs' if any(s[3] == 'ok' for s in series) else 'scale.rejected_inputs'] += 1
     res.sched_sig = ('autoscale', cls.__name__, doc['sep'], doc['item'][:24], mode, tuple(s[3] for s in series))
+    res.nontrivial = True
+    res.stats['scale.max_exponent_x100_bucket_%d' % int(max(tail or [0]) * 10)] += 1
+
+
+def _exec_wholescale(doc, res):
+    """One small accepted unit repeated back to back, plus the first octet of one more: the buffer a reader holds after
+    a burst of minimal records.  Parsing the first unit must not work through (or recurse over) the rest."""
+    cls = corpus.resolve(doc['cls']) or core.get_class(doc['cls'])
+    unit = bytes.fromhex(doc['hex'])
+    series = []
+    for count in ((16, 64, 256, 1024) if doc.get('quick') else (16, 64, 256, 1024, 4096, 16384)):
+        data = unit * count + unit[:1]
+        if len(data) > 400000:
+            break
+        steps, stack, status = _measure(cls, 'parse_immutable', data)
+        series.append((len(data), steps, stack, status))
+        _judge(res, cls.__name__, 'parse_immutable', len(data), steps, stack, status)
+        res.sim_events += 1
+    tail = _series_verdict(res, 'unit %s repeated back to back' % unit[:24].hex(), cls, series,
+                           (cls.__name__, 'repeat-unit', unit[:8].hex()))
+    res.note('wholescale', cls.__name__, [s[3] for s in series])
+    res.stats['runs.wholescale'] += 1
+    res.sched_sig = ('wholescale', cls.__name__, doc['hex'][:16], tuple(s[3] for s in series))
     res.nontrivial = True
     res.stats['scale.max_exponent_x100_bucket_%d' % int(max(tail or [0]) * 10)] += 1
 
@@ -925,9 +979,10 @@ def check(tier, seed):
     sweep = core.run_batch(me, seed, tier, len(sweep_seeds()), 900.0, {'phase': 'sweep'}, chunk=4)
     nest = core.run_batch(me, seed, tier, len(nest_shapes()) * len(NEST_INNER), 600.0, {'phase': 'nest'}, chunk=1)
     lps = core.run_batch(me, seed, tier, len(lp_shapes()) * len(LP_ITEMS), 600.0, {'phase': 'lp'}, chunk=2)
+    whole = core.run_batch(me, seed, tier, len(whole_shapes()), 600.0, {'phase': 'whole'}, chunk=4)
     fuzz = core.run_batch(me, seed, tier, n_runs, wall, extra)
     alloc = core.run_batch(me, seed, tier, n_alloc, 120.0, {'phase': 'alloc'})
-    batch = core.merge_batches([scale, auto, sweep, nest, lps, fuzz, alloc, histories])
+    batch = core.merge_batches([scale, auto, sweep, nest, lps, whole, fuzz, alloc, histories])
     coverage = core.coverage_from_batch(
         batch, RULE, fault_kinds=wire.FAULT_KINDS,
         probes=('declared_length_over_2^24_with_little_data', 'scaled_input_over_16k', 'input_over_1k', 'depth_over_30'),
